@@ -12,6 +12,8 @@ import Mathlib.Tactic.FieldSimp
 import Mathlib.Tactic.Linarith
 import Mathlib.Tactic.NormNum
 import Mathlib.Tactic.SplitIfs
+import Mathlib.Analysis.SpecialFunctions.Integrals.Basic
+import Mathlib.Analysis.SpecialFunctions.Trigonometric.Deriv
 
 namespace Compmech.ConeCyl
 
@@ -624,6 +626,564 @@ theorem geometry_consistent_aux (g : GeomIn K) (s c : K) (hc : c ≠ 0)
     rw [hL] at hH
     exact geom_HL g s c hc hHL H1 h1 o.L o.H hL hH
 
+theorem geomRadii_of_r2 (r1 : Option K) (b l h s : K) (hb : b ≠ 0) :
+    geomRadii r1 (some b) (some l) (some h) s = .ok ⟨b + l * s, b, h, l⟩ := by
+  unfold geomRadii; simp [truthy, hb]
+
+theorem geomRadii_of_r1 (a l h s : K) (ha : a ≠ 0) :
+    geomRadii (some a) none (some l) (some h) s = .ok ⟨a, a - l * s, h, l⟩ := by
+  unfold geomRadii; simp [truthy, ha]
+
+set_option maxHeartbeats 1000000 in
+theorem geometry_subsets_agree_aux (r1 r2 H L s c : K) (hc : c ≠ 0) (h1 : r1 ≠ 0) (h2 : r2 ≠ 0) (hH : H ≠ 0)
+    (hL : L ≠ 0) (hr : r1 = r2 + L * s) (hh : H = L * c) (b1 b2 bH bL : Bool)
+    (hadm : (b1 = true ∨ b2 = true) ∧ (bH = true ∨ bL = true ∨ (b1 = true ∧ b2 = true ∧ s ≠ 0))) :
+    rebuildGeom ⟨if b1 then some r1 else none, if b2 then some r2 else none, if bH then some H else none,
+      if bL then some L else none⟩ s c = .ok ⟨r1, r2, H, L⟩ := by
+  subst hr hh
+  have hLc : L * c / c = L := by field_simp
+  cases b1 <;> cases b2 <;> cases bH <;> cases bL <;>
+    simp [rebuildGeom, geomH1, geomL2, geomH3, geomRadii_of_r2, geomRadii_of_r1, truthy, h1, h2, hH, hL, hc, hLc] at hadm ⊢
+  have hv : L * s / (s / c) = L * c := by field_simp
+  rw [if_neg hadm]
+  simp [hv, hH, hLc, geomRadii_of_r2, h2, truthy]
+
+/-- a radius / length given as `0.0` is treated exactly like one that was not given (Python truthiness) -/
+theorem falsy_zero_is_absent_aux (r1 H L : Option K) (s c : K) :
+    rebuildGeom ⟨r1, some 0, H, L⟩ s c = rebuildGeom ⟨r1, none, H, L⟩ s c ∨
+      (∃ a, r1 = some a ∧ truthy H = false ∧ truthy L = false) := by
+  by_cases hH : truthy H = true
+  · left; simp [rebuildGeom, geomH1, hH]; unfold geomRadii; simp [truthy]
+  · by_cases hL : truthy L = true
+    · left; simp [rebuildGeom, geomH1, hL]; unfold geomRadii; simp [truthy]
+    · rcases r1 with _ | a
+      · left; simp [rebuildGeom, geomH1, hH, hL]
+      · right; exact ⟨a, rfl, by simpa using hH, by simpa using hL⟩
+
 end geometry
+
+/-! ## `_rebuild`: loads -/
+
+section loads
+variable {K : Type} [Field K] [DecidableEq K]
+set_option linter.unusedSectionVars false
+
+theorem Nxxtop_from_Fc_aux (n2 : Nat) (Fc pi r2 cosa : K) (h2 : (2 : K) ≠ 0) (hpi : pi ≠ 0) (hr : r2 ≠ 0)
+    (hc : cosa ≠ 0) (a : List K) (h : rebuildNxxtop n2 .none (some Fc) none none pi r2 cosa = .ok a) :
+    a.getD 0 0 = Fc / (2 * pi * r2 * cosa) ∧ fcFromNxxtop (a.getD 0 0) pi r2 cosa = Fc ∧
+      (∀ i, 0 < i → a.getD i 0 = 0) ∧ a.length = 2 * n2 + 1 := by
+  simp only [rebuildNxxtop] at h
+  injection h with h
+  subst h
+  have hz : (zeros (2 * n2 + 1) : List K) = 0 :: zeros (2 * n2) := by simp [zeros, List.replicate_succ]
+  have h0 : (setIdx (zeros (2 * n2 + 1)) 0 (Fc / (2 * pi * r2 * cosa))) = Fc / (2 * pi * r2 * cosa) :: zeros (2 * n2) := by
+    rw [hz]; simp [setIdx]
+  rw [h0]
+  refine ⟨by simp, ?_, ?_, by simp [zeros]⟩
+  · simp only [List.getD_cons_zero, fcFromNxxtop]; field_simp
+  · intro i hi
+    obtain ⟨k, rfl⟩ : ∃ k, i = k + 1 := ⟨i - 1, by omega⟩
+    simp [zeros, List.getD_eq_getElem?_getD, List.getElem?_replicate]
+    split_ifs <;> rfl
+
+theorem excludedDofs_admitted_aux (pdC pdT : Bool) (uTM thetaT LA : K) :
+    ∃ E ck, excludedDofs pdC pdT true uTM thetaT LA = some (E, ck) ∧ E.Pairwise (· < ·) ∧ 2 ∈ E ∧
+      ck.length = E.length ∧ (∀ e ∈ E, e < 3) ∧ (0 ∈ E ↔ pdC = true) ∧ (1 ∈ E ↔ pdT = true) ∧
+      (E.zip ck).getLast? = some (2, LA) := by
+  cases pdC <;> cases pdT <;> simp [excludedDofs]
+
+theorem excludedDofs_pdLA_false_aux (pdC pdT : Bool) (uTM thetaT LA : K) :
+    excludedDofs pdC pdT false uTM thetaT LA = none := by
+  simp [excludedDofs]
+
+end loads
+
+
+/-! ## `calc_fext`: entry-wise closed form -/
+
+section vecs
+variable {K : Type} [Field K]
+set_option linter.unusedSectionVars false
+set_option linter.unusedSimpArgs false
+
+theorem vecOf_length (n : Nat) (f : Nat → K) : (vecOf n f).length = n := by simp [vecOf]
+
+theorem vecOf_getD (n : Nat) (f : Nat → K) (i : Nat) (hi : i < n) : (vecOf n f).getD i 0 = f i := by
+  simp [vecOf, List.getD_eq_getElem?_getD, hi]
+
+theorem vadd_length (a b : List K) : (vadd a b).length = a.length := by simp [vadd, vecOf_length]
+
+theorem vadd_getD (a b : List K) (i : Nat) (hi : i < a.length) :
+    (vadd a b).getD i 0 = a.getD i 0 + b.getD i 0 := by
+  unfold vadd; rw [vecOf_getD _ _ _ hi]
+
+theorem vsmul_getD (s : K) (a : List K) (i : Nat) : (vsmul s a).getD i 0 = s * a.getD i 0 := by
+  simp only [vsmul, List.getD_eq_getElem?_getD, List.getElem?_map]
+  cases a[i]? <;> simp
+
+theorem foldl_vadd_length {α : Type} (xs : List α) (t : α → List K) (f0 : List K) :
+    (xs.foldl (fun f p => vadd f (t p)) f0).length = f0.length := by
+  induction xs generalizing f0 with
+  | nil => rfl
+  | cons x xs ih => rw [List.foldl_cons, ih, vadd_length]
+
+theorem foldl_vadd_getD {α : Type} (xs : List α) (t : α → List K) (f0 : List K) (i : Nat) (hi : i < f0.length) :
+    (xs.foldl (fun f p => vadd f (t p)) f0).getD i 0 = f0.getD i 0 + (xs.map fun p => (t p).getD i 0).sum := by
+  induction xs generalizing f0 with
+  | nil => simp
+  | cons x xs ih =>
+    rw [List.foldl_cons, ih _ (by rw [vadd_length]; exact hi), vadd_getD _ _ _ hi, List.map_cons, List.sum_cons,
+      add_assoc]
+
+theorem delAll_getElem? (E : List Nat) (v : List K) (i : Nat) : (delAll E.reverse v)[i]? = v[up E i]? := by
+  induction E using List.reverseRecOn generalizing v with
+  | nil => rfl
+  | append_singleton init d ih =>
+    rw [List.reverse_append, List.reverse_singleton, List.singleton_append]
+    show (delAll init.reverse (v.eraseIdx d))[i]? = _
+    rw [ih, List.getElem?_eraseIdx, up_append_singleton]
+    unfold skip
+    split_ifs <;> rfl
+
+theorem npDelete_getD {E : List Nat} (hasc : E.Pairwise (· < ·)) (v : List K) (i : Nat) :
+    (npDelete E v).getD i 0 = v.getD (up E i) 0 := by
+  rw [npDelete_eq_delAll hasc, List.getD_eq_getElem?_getD, delAll_getElem?, ← List.getD_eq_getElem?_getD]
+
+theorem delAll_length (E : List Nat) (hasc : E.Pairwise (· < ·)) (v : List K) (hb : ∀ e ∈ E, e < v.length) :
+    (delAll E.reverse v).length = v.length - E.length := by
+  induction E using List.reverseRecOn generalizing v with
+  | nil => rfl
+  | append_singleton init d ih =>
+    rw [List.pairwise_append] at hasc
+    obtain ⟨h1, _, h3⟩ := hasc
+    have hd : d < v.length := hb d (by simp)
+    rw [List.reverse_append, List.reverse_singleton, List.singleton_append]
+    show (delAll init.reverse (v.eraseIdx d)).length = _
+    have hlen : (v.eraseIdx d).length = v.length - 1 := by rw [List.length_eraseIdx, if_pos hd]
+    rw [ih h1 _ (fun e he => by have := h3 e he d (by simp); rw [hlen]; omega), hlen]
+    simp; omega
+
+theorem npDelete_length {E : List Nat} (hasc : E.Pairwise (· < ·)) (v : List K) (hb : ∀ e ∈ E, e < v.length) :
+    (npDelete E v).length = v.length - E.length := by
+  rw [npDelete_eq_delAll hasc, delAll_length E hasc v hb]
+
+theorem column_getD [DecidableEq K] (l : Coo K) (rows j i : Nat) (hi : i < rows) :
+    (l.column rows j).getD i 0 = l.toFun i j := by
+  unfold Coo.column; rw [vecOf_getD _ _ _ hi]
+
+theorem zeros_getD (n i : Nat) : (zeros n : List K).getD i 0 = 0 := by
+  simp [zeros, List.getD_eq_getElem?_getD, List.getElem?_replicate]
+  split_ifs <;> rfl
+
+theorem zeros_length (n : Nat) : (zeros n : List K).length = n := by simp [zeros]
+
+theorem addAt_length (l : List K) (k : Nat) (v : K) : (addAt l k v).length = l.length := by simp [addAt]
+
+theorem addAt_getD (l : List K) (k : Nat) (v : K) (q : Nat) (hq : q < l.length) :
+    (addAt l k v).getD q 0 = l.getD q 0 + (if q = k then v else 0) := by
+  unfold addAt
+  rw [List.getD_eq_getElem?_getD, List.getElem?_modify, List.getD_eq_getElem?_getD, List.getElem?_eq_getElem hq]
+  by_cases h : k = q
+  · subst h; simp
+  · have : ¬ q = k := fun e => h e.symm
+    simp [h, this]
+
+
+/-- a loop body that keeps the length `n` and adds `δ x q` to every entry `q` -/
+def IsAddStep {α : Type} (n : Nat) (step : List K → α → List K) (δ : α → Nat → K) : Prop :=
+  ∀ acc x, acc.length = n → (step acc x).length = n ∧ ∀ q, q < n → (step acc x).getD q 0 = acc.getD q 0 + δ x q
+
+theorem foldl_addStep {α : Type} (n : Nat) (step : List K → α → List K) (δ : α → Nat → K)
+    (h : IsAddStep n step δ) (xs : List α) (t : List K) (ht : t.length = n) :
+    (xs.foldl step t).length = n ∧
+      ∀ q, q < n → (xs.foldl step t).getD q 0 = t.getD q 0 + (xs.map fun x => δ x q).sum := by
+  induction xs generalizing t with
+  | nil => exact ⟨ht, fun q _ => by simp⟩
+  | cons x xs ih =>
+    obtain ⟨hl, hv⟩ := h t x ht
+    obtain ⟨hl2, hv2⟩ := ih (step t x) hl
+    refine ⟨hl2, fun q hq => ?_⟩
+    rw [List.foldl_cons, hv2 q hq, hv q hq, List.map_cons, List.sum_cons, add_assoc]
+
+theorem addAt_isAddStep {α : Type} (n : Nat) (idx : α → Nat) (val : α → K) :
+    IsAddStep n (fun acc x => addAt acc (idx x) (val x)) (fun x q => if q = idx x then val x else 0) := by
+  intro acc x hacc
+  refine ⟨by rw [addAt_length, hacc], fun q hq => ?_⟩
+  exact addAt_getD acc (idx x) (val x) q (by rw [hacc]; exact hq)
+
+end vecs
+
+section fextspec
+variable {K : Type} [Field K] [DecidableEq K]
+set_option linter.unusedSectionVars false
+set_option linter.unusedSimpArgs false
+
+/-- first amplitude of the pair `(i2, j2) = (i0 + di, j0 + dj)` of the second set -/
+def rowOf (a : FextIn K) (di dj : Nat) : Nat := a.num0 + a.num1 * a.m1 + di * a.num2 + dj * a.num2 * a.m2
+
+/-- closed form of entry `q` of the scratch vector `fext_tmp` -/
+def tmpSpec (a : FextIn K) (Ptot : K) (q : Nat) : K :=
+  (if 0 ∉ a.E then
+    (if q = 0 then a.inc * a.Nxxtop.getD 0 0 * (2 * a.pi * a.r2) / a.cosa else 0)
+    + (if a.bc24 then
+        ((List.range a.n2).map fun dj => ((List.range a.m2).map fun di =>
+          (if q = rowOf a di dj + 0 then a.inc * a.Nxxtop.getD (1 + 2 * dj + 0) 0 * a.pi * a.r2 else 0)
+          + (if q = rowOf a di dj + 1 then a.inc * a.Nxxtop.getD (1 + 2 * dj + 1) 0 * a.pi * a.r2 else 0)).sum).sum
+      else 0)
+   else 0)
+  + (if 2 ∉ a.E then (if q = 2 then a.inc * a.Nxxtop.getD 2 0 * (2 * a.pi * a.r2) / a.cosa else 0) else 0)
+  + (if a.clpt then
+      ((List.range a.m1).map fun di =>
+        if a.i0 + di ≠ 0 ∧ q = a.num0 + di * a.num1 + 2 then Ptot * pressureCoef a.L a.r2 a.sina (a.i0 + di) else 0).sum
+     else 0)
+
+theorem fextTmp_spec (a : FextIn K) (Ptot : K) :
+    (fextTmp a Ptot).length = a.size ∧ ∀ q, q < a.size → (fextTmp a Ptot).getD q 0 = tmpSpec a Ptot q := by
+  -- axial part
+  let nxx := fun i => a.inc * a.Nxxtop.getD i 0
+  have hinner : ∀ dj, IsAddStep a.size
+      (fun acc di => addAt (addAt acc (rowOf a di dj + 0) (nxx (1 + 2 * dj + 0) * a.pi * a.r2)) (rowOf a di dj + 1)
+        (nxx (1 + 2 * dj + 1) * a.pi * a.r2))
+      (fun di q => (if q = rowOf a di dj + 0 then nxx (1 + 2 * dj + 0) * a.pi * a.r2 else 0)
+        + (if q = rowOf a di dj + 1 then nxx (1 + 2 * dj + 1) * a.pi * a.r2 else 0)) := by
+    intro dj acc di hacc
+    have l1 : (addAt acc (rowOf a di dj + 0) (nxx (1 + 2 * dj + 0) * a.pi * a.r2)).length = a.size := by
+      rw [addAt_length, hacc]
+    refine ⟨by rw [addAt_length, l1], fun q hq => ?_⟩
+    rw [addAt_getD _ _ _ _ (by rw [l1]; exact hq), addAt_getD _ _ _ _ (by rw [hacc]; exact hq), add_assoc]
+  have houter : IsAddStep a.size
+      (fun acc dj => (List.range a.m2).foldl (fun acc di =>
+        addAt (addAt acc (rowOf a di dj + 0) (nxx (1 + 2 * dj + 0) * a.pi * a.r2)) (rowOf a di dj + 1)
+          (nxx (1 + 2 * dj + 1) * a.pi * a.r2)) acc)
+      (fun dj q => ((List.range a.m2).map fun di =>
+        (if q = rowOf a di dj + 0 then nxx (1 + 2 * dj + 0) * a.pi * a.r2 else 0)
+        + (if q = rowOf a di dj + 1 then nxx (1 + 2 * dj + 1) * a.pi * a.r2 else 0)).sum) := by
+    intro acc dj hacc
+    exact foldl_addStep a.size _ _ (hinner dj) (List.range a.m2) acc hacc
+  have hpress : IsAddStep a.size
+      (fun acc di => if a.i0 + di = 0 then acc
+        else addAt acc (a.num0 + di * a.num1 + 2) (Ptot * pressureCoef a.L a.r2 a.sina (a.i0 + di)))
+      (fun di q => if a.i0 + di ≠ 0 ∧ q = a.num0 + di * a.num1 + 2
+        then Ptot * pressureCoef a.L a.r2 a.sina (a.i0 + di) else 0) := by
+    intro acc di hacc
+    by_cases h0 : a.i0 + di = 0
+    · simp only [h0, if_true, ne_eq, not_true_eq_false, false_and, if_false, add_zero]
+      exact ⟨hacc, fun _ _ => trivial⟩
+    · simp only [h0, if_false, ne_eq, not_false_eq_true, true_and]
+      refine ⟨by rw [addAt_length, hacc], fun q hq => ?_⟩
+      exact addAt_getD _ _ _ _ (by rw [hacc]; exact hq)
+  -- the stages of the construction
+  have f0 : (zeros a.size : List K).length = a.size := zeros_length _
+  have fb : (addAt (zeros a.size) 0 (nxx 0 * (2 * a.pi * a.r2) / a.cosa)).length = a.size := by
+    rw [addAt_length, f0]
+  have fbv : ∀ q, q < a.size → (addAt (zeros a.size) 0 (nxx 0 * (2 * a.pi * a.r2) / a.cosa)).getD q 0 =
+      (if q = 0 then nxx 0 * (2 * a.pi * a.r2) / a.cosa else 0) := by
+    intro q hq
+    rw [addAt_getD _ _ _ _ (by rw [f0]; exact hq), zeros_getD, zero_add]
+  -- t1
+  obtain ⟨t1, ht1def, ht1l, ht1v⟩ : ∃ t1 : List K,
+      t1 = (if 0 ∉ a.E then
+              (if a.bc24 then
+                (List.range a.n2).foldl (fun acc dj => (List.range a.m2).foldl (fun acc di =>
+                  addAt (addAt acc (rowOf a di dj + 0) (nxx (1 + 2 * dj + 0) * a.pi * a.r2)) (rowOf a di dj + 1)
+                    (nxx (1 + 2 * dj + 1) * a.pi * a.r2)) acc)
+                  (addAt (zeros a.size) 0 (nxx 0 * (2 * a.pi * a.r2) / a.cosa))
+               else addAt (zeros a.size) 0 (nxx 0 * (2 * a.pi * a.r2) / a.cosa))
+            else zeros a.size) ∧ t1.length = a.size ∧
+      ∀ q, q < a.size → t1.getD q 0 =
+        (if 0 ∉ a.E then
+          (if q = 0 then nxx 0 * (2 * a.pi * a.r2) / a.cosa else 0)
+          + (if a.bc24 then
+              ((List.range a.n2).map fun dj => ((List.range a.m2).map fun di =>
+                (if q = rowOf a di dj + 0 then nxx (1 + 2 * dj + 0) * a.pi * a.r2 else 0)
+                + (if q = rowOf a di dj + 1 then nxx (1 + 2 * dj + 1) * a.pi * a.r2 else 0)).sum).sum
+            else 0)
+         else 0) := by
+    refine ⟨_, rfl, ?_, ?_⟩
+    · by_cases h0 : 0 ∉ a.E
+      · rw [if_pos h0]
+        by_cases hb : a.bc24 = true
+        · rw [if_pos hb]; exact (foldl_addStep a.size _ _ houter _ _ fb).1
+        · rw [if_neg hb]; exact fb
+      · rw [if_neg h0]; exact f0
+    · intro q hq
+      by_cases h0 : 0 ∉ a.E
+      · rw [if_pos h0, if_pos h0]
+        by_cases hb : a.bc24 = true
+        · rw [if_pos hb, if_pos hb, (foldl_addStep a.size _ _ houter _ _ fb).2 q hq, fbv q hq]
+        · rw [if_neg hb, if_neg hb, fbv q hq, add_zero]
+      · rw [if_neg h0, if_neg h0, zeros_getD]
+  -- t2
+  obtain ⟨t2, ht2def, ht2l, ht2v⟩ : ∃ t2 : List K,
+      t2 = (if 2 ∉ a.E then addAt t1 2 (nxx 2 * (2 * a.pi * a.r2) / a.cosa) else t1) ∧ t2.length = a.size ∧
+      ∀ q, q < a.size → t2.getD q 0 = t1.getD q 0 +
+        (if 2 ∉ a.E then (if q = 2 then nxx 2 * (2 * a.pi * a.r2) / a.cosa else 0) else 0) := by
+    refine ⟨_, rfl, ?_, ?_⟩
+    · by_cases h2 : 2 ∉ a.E
+      · rw [if_pos h2, addAt_length, ht1l]
+      · rw [if_neg h2, ht1l]
+    · intro q hq
+      by_cases h2 : 2 ∉ a.E
+      · rw [if_pos h2, if_pos h2, addAt_getD _ _ _ _ (by rw [ht1l]; exact hq)]
+      · rw [if_neg h2, if_neg h2, add_zero]
+  have hdef : fextTmp a Ptot =
+      if Ptot ≠ 0 ∧ a.clpt then
+        (List.range a.m1).foldl (fun acc di => if a.i0 + di = 0 then acc
+          else addAt acc (a.num0 + di * a.num1 + 2) (Ptot * pressureCoef a.L a.r2 a.sina (a.i0 + di))) t2
+      else t2 := by
+    rw [ht2def, ht1def]; rfl
+  rw [hdef]
+  by_cases hP : Ptot ≠ 0 ∧ a.clpt
+  · rw [if_pos hP]
+    obtain ⟨hl, hv⟩ := foldl_addStep a.size _ _ hpress (List.range a.m1) t2 ht2l
+    refine ⟨hl, fun q hq => ?_⟩
+    rw [hv q hq, ht2v q hq, ht1v q hq]
+    unfold tmpSpec
+    simp only [hP.2, if_true]
+    rfl
+  · rw [if_neg hP]
+    refine ⟨ht2l, fun q hq => ?_⟩
+    rw [ht2v q hq, ht1v q hq]
+    unfold tmpSpec
+    by_cases hc : a.clpt = true
+    · have hP0 : Ptot = 0 := by
+        by_contra h; exact hP ⟨h, hc⟩
+      simp only [hc, if_true, hP0, zero_mul, ite_self, List.map_const', List.sum_replicate, smul_zero, add_zero]
+      rfl
+    · simp only [hc, Bool.false_eq_true, if_false, add_zero]
+      rfl
+
+
+/-- entry `q` of row `r` of the array written by `fg` -/
+def rowAt (g : List (List K)) (r q : Nat) : K := (g.getD r []).getD q 0
+
+/-- `f · (u, v, w)`-shape functions of FULL amplitude `q` at the point of the force -/
+def pointRow (f : PointForce K) (q : Nat) : K := f.fx * rowAt f.g 0 q + f.ft * rowAt f.g 1 q + f.fz * rowAt f.g 2 q
+
+/-- shape of the data `calc_fext` is called with -/
+structure WF (a : FextIn K) : Prop where
+  asc : a.E.Pairwise (· < ·)
+  bound : ∀ e ∈ a.E, e < a.size
+  dofs : a.dofs = 3 ∨ a.dofs = 5
+  forces : ∀ f ∈ a.forces ++ a.forcesInc, f.g.length = a.dofs ∧ ∀ row ∈ f.g, row.length = a.size
+  g00 : a.g00.length = a.dofs ∧ ∀ row ∈ a.g00, row.length = a.size
+
+theorem pointTerm_spec (E : List Nat) (hasc : E.Pairwise (· < ·)) (size dofs : Nat) (hb : ∀ e ∈ E, e < size)
+    (hd : dofs = 3 ∨ dofs = 5) (sc : K) (f : PointForce K)
+    (hg : f.g.length = dofs ∧ ∀ row ∈ f.g, row.length = size) :
+    (pointTerm E dofs sc f).length = size - E.length ∧
+      ∀ i, i < size - E.length → (pointTerm E dofs sc f).getD i 0 = sc * pointRow f (up E i) := by
+  obtain ⟨hlen, hrows⟩ := hg
+  have hnu : ∀ row ∈ f.g, (npDelete E row).length = size - E.length := fun row hr => by
+    rw [npDelete_length hasc row (by rw [hrows row hr]; exact hb), hrows row hr]
+  rcases hd with hd | hd
+  · subst hd
+    obtain ⟨g0, g1, g2, hgeq⟩ : ∃ g0 g1 g2, f.g = [g0, g1, g2] := by
+      rcases hfg : f.g with _ | ⟨g0, _ | ⟨g1, _ | ⟨g2, _ | ⟨g3, r⟩⟩⟩⟩ <;> rw [hfg] at hlen <;> simp at hlen
+      exact ⟨g0, g1, g2, rfl⟩
+    have h0 := hnu g0 (by rw [hgeq]; simp)
+    unfold pointTerm
+    simp only [hgeq, List.map_cons, List.map_nil, List.headD_cons, if_true, h0, vecOf_length, true_and]
+    intro i hi
+    rw [vecOf_getD _ _ _ hi]
+    simp only [List.zipWith_cons_cons, List.zipWith_nil_right, List.sum_cons, List.sum_nil, add_zero,
+      npDelete_getD hasc]
+    unfold pointRow rowAt
+    simp only [hgeq, List.getD_cons_zero, List.getD_cons_succ]
+    ring
+  · subst hd
+    obtain ⟨g0, g1, g2, g3, g4, hgeq⟩ : ∃ g0 g1 g2 g3 g4, f.g = [g0, g1, g2, g3, g4] := by
+      rcases hfg : f.g with _ | ⟨g0, _ | ⟨g1, _ | ⟨g2, _ | ⟨g3, _ | ⟨g4, _ | ⟨g5, r⟩⟩⟩⟩⟩⟩ <;> rw [hfg] at hlen <;>
+        simp at hlen
+      exact ⟨g0, g1, g2, g3, g4, rfl⟩
+    have h0 := hnu g0 (by rw [hgeq]; simp)
+    unfold pointTerm
+    simp only [hgeq, List.map_cons, List.map_nil, List.headD_cons, h0, vecOf_length, true_and,
+      show ¬ (5 = 3) by omega, if_false]
+    intro i hi
+    rw [vecOf_getD _ _ _ hi]
+    simp only [List.zipWith_cons_cons, List.zipWith_nil_right, List.sum_cons, List.sum_nil, add_zero,
+      npDelete_getD hasc]
+    unfold pointRow rowAt
+    simp only [hgeq, List.getD_cons_zero, List.getD_cons_succ]
+    ring
+
+/-- closed form of entry `i` of `calc_fext(inc)` -/
+def fextSpec (a : FextIn K) (i : Nat) : K :=
+  (a.forces.map fun f => pointRow f (up a.E i)).sum + a.inc * (a.forcesInc.map fun f => pointRow f (up a.E i)).sum
+  + tmpSpec a (a.P + a.inc * a.Pinc) (up a.E i)
+  - (if 0 ∈ a.E then a.inc * a.uTM * a.k0uk.toFun i 0 else 0)
+  + (if a.pdT then -(a.inc * a.thetaT * a.k0uk.toFun i 1)
+     else (a.T + a.inc * a.Tinc) / a.r2 * rowAt a.g00 1 (up a.E i))
+
+
+theorem up_lt_size {E : List Nat} (hasc : E.Pairwise (· < ·)) (size : Nat) (hb : ∀ e ∈ E, e < size) (i : Nat)
+    (hi : i < size - E.length) : up E i < size := by
+  induction E using List.reverseRecOn generalizing size i with
+  | nil => simpa [up] using hi
+  | append_singleton init d ih =>
+    rw [List.pairwise_append] at hasc
+    obtain ⟨h1, _, h3⟩ := hasc
+    have hd : d < size := hb d (by simp)
+    have hlen : (init ++ [d]).length = init.length + 1 := by simp
+    rw [hlen] at hi
+    have := ih h1 (size - 1) (fun e he => by have := h3 e he d (by simp); omega) i (by omega)
+    rw [up_append_singleton]
+    unfold skip; split_ifs <;> omega
+
+theorem calcFext_spec (a : FextIn K) (hw : WF a) (f : List K) (h : calcFext a = .ok f) :
+    f.length = a.size - a.E.length ∧ ∀ i, i < a.size - a.E.length → f.getD i 0 = fextSpec a i := by
+  obtain ⟨hasc, hb, hd, hforces, hg00⟩ := hw
+  set nu := a.size - a.E.length with hnu
+  -- the pieces
+  have l0 : (npDelete a.E (zeros a.size : List K)).length = nu := by
+    rw [npDelete_length hasc _ (by rw [zeros_length]; exact hb), zeros_length]
+  have v0 : ∀ i, (npDelete a.E (zeros a.size : List K)).getD i 0 = 0 := fun i => by
+    rw [npDelete_getD hasc, zeros_getD]
+  have hpt : ∀ sc : K, ∀ p ∈ a.forces ++ a.forcesInc, ∀ i, i < nu →
+      (pointTerm a.E a.dofs sc p).getD i 0 = sc * pointRow p (up a.E i) := fun sc p hp i hi =>
+    (pointTerm_spec a.E hasc a.size a.dofs hb hd sc p (hforces p hp)).2 i hi
+  -- f1, f2
+  have l1 : (a.forces.foldl (fun f p => vadd f (pointTerm a.E a.dofs 1 p)) (npDelete a.E (zeros a.size))).length = nu := by
+    rw [foldl_vadd_length, l0]
+  have v1 : ∀ i, i < nu →
+      (a.forces.foldl (fun f p => vadd f (pointTerm a.E a.dofs 1 p)) (npDelete a.E (zeros a.size))).getD i 0 =
+        (a.forces.map fun p => pointRow p (up a.E i)).sum := by
+    intro i hi
+    rw [foldl_vadd_getD _ _ _ _ (by rw [l0]; exact hi), v0, zero_add]
+    congr 1
+    apply List.map_congr_left
+    intro p hp
+    rw [hpt 1 p (List.mem_append_left _ hp) i hi, one_mul]
+  set f1 := a.forces.foldl (fun f p => vadd f (pointTerm a.E a.dofs 1 p)) (npDelete a.E (zeros a.size)) with hf1
+  have l2 : (a.forcesInc.foldl (fun f p => vadd f (pointTerm a.E a.dofs a.inc p)) f1).length = nu := by
+    rw [foldl_vadd_length, l1]
+  have v2 : ∀ i, i < nu → (a.forcesInc.foldl (fun f p => vadd f (pointTerm a.E a.dofs a.inc p)) f1).getD i 0 =
+      (a.forces.map fun p => pointRow p (up a.E i)).sum
+        + a.inc * (a.forcesInc.map fun p => pointRow p (up a.E i)).sum := by
+    intro i hi
+    rw [foldl_vadd_getD _ _ _ _ (by rw [l1]; exact hi), v1 i hi]
+    congr 1
+    rw [← List.sum_map_mul_left]
+    congr 1
+    apply List.map_congr_left
+    intro p hp
+    rw [hpt a.inc p (List.mem_append_right _ hp) i hi]
+  set f2 := a.forcesInc.foldl (fun f p => vadd f (pointTerm a.E a.dofs a.inc p)) f1 with hf2
+  -- f3
+  set f3 := (if 0 ∉ a.E then f2 else vadd f2 (vsmul (-(a.inc * a.uTM)) (a.k0uk.column nu 0))) with hf3
+  have l3 : f3.length = nu := by
+    rw [hf3]
+    by_cases h0 : 0 ∉ a.E
+    · rw [if_pos h0]; exact l2
+    · rw [if_neg h0, vadd_length, l2]
+  have v3 : ∀ i, i < nu → f3.getD i 0 = f2.getD i 0 - (if 0 ∈ a.E then a.inc * a.uTM * a.k0uk.toFun i 0 else 0) := by
+    intro i hi
+    rw [hf3]
+    by_cases h0 : 0 ∈ a.E
+    · rw [if_neg (not_not.mpr h0), if_pos h0, vadd_getD _ _ _ (by rw [l2]; exact hi), vsmul_getD,
+        column_getD _ _ _ _ hi]
+      ring
+    · rw [if_pos h0, if_neg h0, sub_zero]
+  -- unfold the definition
+  unfold calcFext at h
+  simp only [] at h
+  rw [← hnu, ← hf1, ← hf2, ← hf3] at h
+  split_ifs at h with herr hT hT0
+  all_goals (injection h with h; subst h)
+  all_goals
+    have l4 : (vadd f3 (npDelete a.E (fextTmp a (a.P + a.inc * a.Pinc)))).length = nu := by rw [vadd_length, l3]
+    have v4 : ∀ i, i < nu → (vadd f3 (npDelete a.E (fextTmp a (a.P + a.inc * a.Pinc)))).getD i 0 =
+        f3.getD i 0 + tmpSpec a (a.P + a.inc * a.Pinc) (up a.E i) := by
+      intro i hi
+      rw [vadd_getD _ _ _ (by rw [l3]; exact hi), npDelete_getD hasc,
+        (fextTmp_spec a (a.P + a.inc * a.Pinc)).2 _ (up_lt_size hasc a.size hb i hi)]
+  · -- pdT
+    refine ⟨by rw [vadd_length, l4], fun i hi => ?_⟩
+    rw [vadd_getD _ _ _ (by rw [l4]; exact hi), v4 i hi, v3 i hi, v2 i hi, vsmul_getD, column_getD _ _ _ _ hi]
+    unfold fextSpec
+    rw [if_pos hT]
+    ring
+  · -- torque as a point force
+    refine ⟨by rw [vadd_length, l4], fun i hi => ?_⟩
+    rw [vadd_getD _ _ _ (by rw [l4]; exact hi), v4 i hi, v3 i hi, v2 i hi,
+      (pointTerm_spec a.E hasc a.size a.dofs hb hd 1 ⟨0, (a.T + a.inc * a.Tinc) / a.r2, 0, a.g00⟩ hg00).2 i hi]
+    unfold fextSpec pointRow
+    rw [if_neg hT]
+    ring
+  · refine ⟨l4, fun i hi => ?_⟩
+    rw [v4 i hi, v3 i hi, v2 i hi]
+    unfold fextSpec
+    have : a.T + a.inc * a.Tinc = 0 := by simpa using hT0
+    rw [if_neg hT, this]
+    ring
+
+end fextspec
+
+/-! ## real analysis: the pressure closed form and the circumferential harmonics -/
+
+section analysis
+open Real intervalIntegral
+
+theorem pressure_closed_form_aux (i : ℕ) (hi : 1 ≤ i) (L r2 sa : ℝ) (hL : L ≠ 0) :
+    ∫ x in (0:ℝ)..L, ∫ _θ in (0:ℝ)..(2 * π), Real.sin (i * π * x / L) * (r2 + x * sa)
+      = pressureCoef L r2 sa i := by
+  have hi0 : (i : ℝ) ≠ 0 := by positivity
+  have hk : (i * π / L) ≠ 0 := div_ne_zero (mul_ne_zero hi0 pi_ne_zero) hL
+  set k : ℝ := i * π / L with hkdef
+  have inner : ∀ x : ℝ, (∫ _θ in (0:ℝ)..(2 * π), Real.sin (i * π * x / L) * (r2 + x * sa))
+      = 2 * π * (Real.sin (k * x) * (r2 + x * sa)) := by
+    intro x
+    rw [intervalIntegral.integral_const, smul_eq_mul, sub_zero]
+    have : (i:ℝ) * π * x / L = k * x := by rw [hkdef]; ring
+    rw [this]
+  simp_rw [inner]
+  have hderiv : ∀ x ∈ Set.uIcc (0:ℝ) L,
+      HasDerivAt (fun x => 2 * π * (-(r2 + x * sa) * Real.cos (k * x) / k + sa * Real.sin (k * x) / k ^ 2))
+        (2 * π * (Real.sin (k * x) * (r2 + x * sa))) x := by
+    intro x _
+    have h1 : HasDerivAt (fun x : ℝ => k * x) k x := by simpa using (hasDerivAt_id x).const_mul k
+    have hcos := h1.cos
+    have hsin := h1.sin
+    have hlin : HasDerivAt (fun x : ℝ => r2 + x * sa) sa x := by
+      simpa using ((hasDerivAt_id x).mul_const sa).const_add r2
+    have hA : HasDerivAt (fun x : ℝ => -(r2 + x * sa)) (-sa) x := hlin.neg
+    have hB : HasDerivAt (fun x : ℝ => -(r2 + x * sa) * Real.cos (k * x))
+        (-sa * Real.cos (k * x) + -(r2 + x * sa) * (-Real.sin (k * x) * k)) x := hA.mul hcos
+    have hC : HasDerivAt (fun x : ℝ => -(r2 + x * sa) * Real.cos (k * x) / k)
+        ((-sa * Real.cos (k * x) + -(r2 + x * sa) * (-Real.sin (k * x) * k)) / k) x := hB.div_const k
+    have hD : HasDerivAt (fun x : ℝ => sa * Real.sin (k * x)) (sa * (Real.cos (k * x) * k)) x := hsin.const_mul sa
+    have hE : HasDerivAt (fun x : ℝ => sa * Real.sin (k * x) / k ^ 2) (sa * (Real.cos (k * x) * k) / k ^ 2) x :=
+      hD.div_const (k ^ 2)
+    have hF : HasDerivAt (fun x : ℝ => -(r2 + x * sa) * Real.cos (k * x) / k + sa * Real.sin (k * x) / k ^ 2)
+        ((-sa * Real.cos (k * x) + -(r2 + x * sa) * (-Real.sin (k * x) * k)) / k
+          + sa * (Real.cos (k * x) * k) / k ^ 2) x := hC.add hE
+    have hG := hF.const_mul (2 * π)
+    refine hG.congr_deriv ?_
+    field_simp
+    ring
+  rw [integral_eq_sub_of_hasDerivAt hderiv]
+  · have hkL : k * L = i * π := by rw [hkdef]; field_simp
+    simp only [hkL, mul_zero, Real.cos_zero, Real.sin_zero, Real.cos_nat_mul_pi, Real.sin_nat_mul_pi]
+    unfold pressureCoef
+    rw [hkdef]
+    field_simp
+    ring
+  · apply Continuous.intervalIntegrable
+    fun_prop
+
+theorem harmonic_integrals_zero_aux (j : ℕ) (hj : 1 ≤ j) :
+    (∫ θ in (0:ℝ)..(2 * π), Real.cos (j * θ)) = 0 ∧ (∫ θ in (0:ℝ)..(2 * π), Real.sin (j * θ)) = 0 := by
+  have hj0 : (j : ℝ) ≠ 0 := by positivity
+  have h2 : (j : ℝ) * (2 * π) = ((2 * j : ℕ) : ℝ) * π := by push_cast; ring
+  constructor
+  · rw [intervalIntegral.integral_comp_mul_left (fun x => Real.cos x) hj0, integral_cos, mul_zero, Real.sin_zero, h2,
+      Real.sin_nat_mul_pi]
+    simp
+  · rw [intervalIntegral.integral_comp_mul_left (fun x => Real.sin x) hj0, integral_sin, mul_zero, Real.cos_zero, h2,
+      Real.cos_nat_mul_pi]
+    simp
+
+end analysis
 
 end Compmech.ConeCyl
